@@ -1,4 +1,4 @@
-\* protocol 1 loop up to 1G (20 doublings), two files, both modes; liveness
+\* protocol 1 loop up to 1G (20 doublings), two files, both modes
 SPECIFICATION Spec
 CONSTANTS
   Floor = 1024
@@ -21,5 +21,4 @@ CONSTANTS
 INVARIANTS TypeOK SizeInRange ChunksInRange NeverRejectedByReceiver NothingQueuedIsRejected ProbeEndsOnce
   TokenPaired EncoderNotStuck OneChunkWhileProbing DoubleOnlyWhenAllowed ShrinkOnlyWhenSlow
   SuspendedAfterPause ProbeEndedBy
-PROPERTIES Termination
 CHECK_DEADLOCK TRUE
